@@ -36,6 +36,7 @@ class Profile:
         self.layouts = ('C',)
         self.specials = False
         self.casts = False
+        self.must_kind = None           # a metadata kind of which every logical file holds at least one object
         self.fractional_index = False   # float64 index values that float32 cannot represent (differential oracles only)
         self.any_casts = False          # casts whose result is not defined for every value (C19 only: no content oracle)
         self.meta_kinds = ()            # object kinds (besides origin/channel/frame) that may appear
@@ -687,8 +688,10 @@ def draw_logical_file(draw, profile, lf_index=0, rows_fixed=None):
     # metadata
     if profile.meta_kinds:
         n_meta = draw(st.integers(0, profile.max_meta))
-        kinds = sorted(draw(st.lists(st.sampled_from(list(profile.meta_kinds)), min_size=n_meta, max_size=n_meta)),
-                       key=META_ORDER.index)
+        kinds = draw(st.lists(st.sampled_from(list(profile.meta_kinds)), min_size=n_meta, max_size=n_meta))
+        if profile.must_kind:
+            kinds = kinds[:max(0, profile.max_meta - 1)] + [profile.must_kind]
+        kinds = sorted(kinds, key=META_ORDER.index)
         for k in kinds:
             draw_meta(draw, k, g)
             if pending_origins and pending_origins < n_or and draw(st.integers(0, 3)) == 0:
